@@ -888,6 +888,8 @@ func accessPath(v ssa.Value) (ssa.Value, []string) {
 		case *ssa.IndexAddr:
 			r, p := accessPath(x.X)
 			return r, append(p, "[]")
+		case *ssa.Slice:
+			v = x.X
 		case *ssa.FreeVar:
 			if b := freeVarBinding(x); b != nil {
 				v = b
